@@ -4,6 +4,7 @@ import (
 	"fmt"
 	"os"
 	"strings"
+	"sync"
 
 	"github.com/yuin/goldmark/ast"
 
@@ -457,41 +458,7 @@ func runC02(r *core.Run) {
 
 	// tab-spelled indentation: the canonical spelling of this sub-check writes tabs wherever a tab reaches the same column
 	{
-		var tdocs [][]Blk
-		p, q, c := para(w("p")), para(w("q")), codeBlk("", "c")
-		contents := [][]Blk{{p}, {p, c}, {p, codeBlk("", "c\n\n d")}, {p, q}, {p, quote(q)}, {p, quote(c)}, {p, ulist(true, []Blk{q})}, {p, ulist(false, []Blk{q, c})}, {p, olist(1, false, []Blk{q, c})},
-			{heading(1, w("h")), c}, {p, c, q}, {p, ulist(false, []Blk{q, ulist(false, []Blk{para(w("r")), c})})}}
-		for _, x := range contents {
-			tdocs = append(tdocs, []Blk{ulist(false, x, []Blk{para(w("b"))})}, []Blk{olist(1, false, x, []Blk{para(w("b"))})}, []Blk{olist(7, false, x)}, []Blk{ulist(false, x), para(w("z"))})
-			if len(x) == 2 && x[1].K == bList {
-				tdocs = append(tdocs, []Blk{ulist(true, x)}, []Blk{olist(1, true, x, []Blk{para(w("b"))})})
-			}
-			tdocs = append(tdocs, []Blk{quote(x...)}, []Blk{quote(ulist(false, x))})
-		}
-		tdocs = append(tdocs, []Blk{c}, []Blk{codeBlk("", "c\n\td")}, []Blk{heading(1, w("h")), c, para(w("z"))})
-		{
-			var keep [][]Blk
-			var okTree func(bs []Blk) bool
-			okTree = func(bs []Blk) bool {
-				for _, b := range bs {
-					if !validList(b) || !okTree(b.Kids) {
-						return false
-					}
-					for _, it := range b.Items {
-						if !okTree(it) {
-							return false
-						}
-					}
-				}
-				return true
-			}
-			for _, d := range tdocs {
-				if okTree(d) {
-					keep = append(keep, d)
-				}
-			}
-			tdocs = keep
-		}
+		tdocs := c02TabDocs()
 		for _, ms := range []int{2, 1, 3, 0} {
 			prefer := map[string]int{"tab-indent": 1, "tab-after-marker": 1, "code-form": 7, "marker-spaces": ms}
 			s := r.Sub(fmt.Sprintf("tabs/marker-spaces=%d", ms+1), fmt.Sprintf("%d list/quote/code documents whose canonical spelling here uses %d space(s) after the list marker and a TAB wherever a tab reaches the same column (after the marker, as continuation indentation of a 4-column item, as indented-code prefix at a column divisible by 4), with every vector of ≤%d deviations from that canonical spelling; output must equal the reference renderer's HTML", len(tdocs), ms+1, d))
@@ -535,6 +502,99 @@ func runC02(r *core.Run) {
 	s.Transitions.Store(s.Evals.Load())
 	s.Bound = fmt.Sprintf("%d model documents × deviations≤%d", len(docs), d)
 	s.Done()
+}
+
+// c02TabDocs returns the list/quote/code model documents of the tab sub-check.
+func c02TabDocs() [][]Blk {
+	var tdocs [][]Blk
+	p, q, c := para(w("p")), para(w("q")), codeBlk("", "c")
+	contents := [][]Blk{{p}, {p, c}, {p, codeBlk("", "c\n\n d")}, {p, q}, {p, quote(q)}, {p, quote(c)}, {p, ulist(true, []Blk{q})}, {p, ulist(false, []Blk{q, c})}, {p, olist(1, false, []Blk{q, c})},
+		{heading(1, w("h")), c}, {p, c, q}, {p, ulist(false, []Blk{q, ulist(false, []Blk{para(w("r")), c})})}}
+	for _, x := range contents {
+		tdocs = append(tdocs, []Blk{ulist(false, x, []Blk{para(w("b"))})}, []Blk{olist(1, false, x, []Blk{para(w("b"))})}, []Blk{olist(7, false, x)}, []Blk{ulist(false, x), para(w("z"))})
+		if len(x) == 2 && x[1].K == bList {
+			tdocs = append(tdocs, []Blk{ulist(true, x)}, []Blk{olist(1, true, x, []Blk{para(w("b"))})})
+		}
+		tdocs = append(tdocs, []Blk{quote(x...)}, []Blk{quote(ulist(false, x))})
+	}
+	tdocs = append(tdocs, []Blk{c}, []Blk{codeBlk("", "c\n\td")}, []Blk{heading(1, w("h")), c, para(w("z"))})
+	{
+		var keep [][]Blk
+		var okTree func(bs []Blk) bool
+		okTree = func(bs []Blk) bool {
+			for _, b := range bs {
+				if !validList(b) || !okTree(b.Kids) {
+					return false
+				}
+				for _, it := range b.Items {
+					if !okTree(it) {
+						return false
+					}
+				}
+			}
+			return true
+		}
+		for _, d := range tdocs {
+			if okTree(d) {
+				keep = append(keep, d)
+			}
+		}
+		tdocs = keep
+	}
+	return tdocs
+}
+
+// c02Variants calls f with the Markdown of doc under every choice vector with ≤d deviations from the (preferred) spelling.
+func c02Variants(doc []Blk, d int, prefer map[string]int, f func(md string)) {
+	var rec func(over map[int]int, from, left int)
+	rec = func(over map[int]int, from, left int) {
+		md, log := PrintMarkdownPrefer(doc, over, prefer)
+		f(md)
+		if left == 0 {
+			return
+		}
+		for i := from; i < len(log); i++ {
+			for v := 1; v < log[i].N; v++ {
+				o2 := map[int]int{i: v}
+				for k, x := range over {
+					o2[k] = x
+				}
+				rec(o2, i+1, left-1)
+			}
+		}
+	}
+	rec(map[int]int{}, 0, d)
+}
+
+var (
+	modelDocsOnce sync.Once
+	modelDocs     [][]byte
+)
+
+// ModelDocs returns printed model documents for use as inputs by other checks (their expected HTML is not used there):
+// the tab documents under four canonical spellings with every single deviation, and the block-structure documents in
+// their default spelling. De-duplicated.
+func ModelDocs() [][]byte {
+	modelDocsOnce.Do(func() {
+		seen := map[string]bool{}
+		add := func(md string) {
+			if !seen[md] {
+				seen[md] = true
+				modelDocs = append(modelDocs, []byte(md))
+			}
+		}
+		for _, ms := range []int{2, 1, 3, 0} {
+			prefer := map[string]int{"tab-indent": 1, "tab-after-marker": 1, "code-form": 7, "marker-spaces": ms}
+			for _, d := range c02TabDocs() {
+				c02Variants(d, 1, prefer, add)
+			}
+		}
+		for _, d := range c02TabDocs() {
+			c02Variants(d, 1, nil, add)
+		}
+		c02BlockDocs(false, func(doc []Blk) { c02Variants(doc, 0, nil, add) })
+	})
+	return modelDocs
 }
 
 func os2Exit(r *core.Run) {
